@@ -126,7 +126,10 @@ func (g *DirectedTargetGraph) GetTargetDependencies(node model.BuildNode) []*mod
 	for _, dependency := range g.GetDependencies(node) {
 		if target, ok := dependency.(*model.Target); ok {
 			targets = append(targets, target)
+			continue
 		}
+		// A dependency that is not a target itself (an alias) stands for the targets it resolves to.
+		targets = append(targets, g.GetTargetDependencies(dependency)...)
 	}
 	return targets
 }
